@@ -1,6 +1,6 @@
 use fvh::checks::concchecks::ConcCase;
 use fvh::conc::*;
-use fvh::sched::Pool;
+use fvh::sched::{Ev, Pool};
 fn main() {
     let f = std::env::args().nth(1).unwrap();
     let pg = std::env::args().nth(2).map_or(false, |s| s == "pg");
@@ -9,8 +9,25 @@ fn main() {
     std::panic::set_hook(Box::new(|_| {}));
     let pool = Pool::new();
     let opts = ExecOpts { collect_events: true, hold_refs: false, post_growth: pg, ..ExecOpts::DEFAULT };
-    for _ in 0..3 {
-        let out = exec(&pool, &cc.prog, SchedSpec { switches: cc.schedule.clone().unwrap(), ..Default::default() }, &opts, None);
-        println!("verdict {:?} oracle {:?} performed {:?} steps {}", out.verdict, out.oracle_fail, out.performed, out.steps);
+    let out = exec(&pool, &cc.prog, SchedSpec { switches: cc.schedule.clone().unwrap(), record_trace: true, ..Default::default() }, &opts, None);
+    println!("verdict {:?} oracle {:?} performed {:?} steps {}", out.verdict, out.oracle_fail, out.performed, out.steps);
+    println!("tables {} -> {}", out.table_len_before, out.table_len_after);
+    for e in &out.events {
+        if let Ev::Site { thread, step, kind, a, b } = e {
+            println!("  site T{} step {} kind {} a {:#x} b {}", thread, step, kind, a, b);
+        }
+    }
+    for e in &out.recs.ops {
+        println!("  op {:?}", e);
+    }
+    println!("  clears {:?}", out.recs.clears);
+    println!("  init keys {:?}", out.init.keys().collect::<Vec<_>>());
+    println!("  fin keys {:?}", out.fin.keys().collect::<Vec<_>>());
+    let mut last = 255u8;
+    for t in &out.trace {
+        if t.thread != last {
+            println!("  step {} -> T{}", t.step, t.thread);
+            last = t.thread;
+        }
     }
 }
